@@ -53,6 +53,7 @@ struct ShimCfg {
 	uint32_t rate_read_short, rate_write_short, rate_write_err, rate_read_err;
 	uint32_t rate_falloc, rate_unlink, rate_emfile, rate_mmap, rate_epoll_shuffle;
 	int realloc_always_moves;
+	int extra_yields;            // a task may also be preempted right after releasing a lock and inside random() (off by default: recorded decisions of older replays keep their meaning)
 	uint32_t rate_kill, rate_write_lost;
 	int64_t coarse_tick_ns;     // > 0: the *_COARSE clock ids return the time of the last kernel tick (they lag the precise clocks by up to one tick, as on Linux); 0: they are precise
 	uint32_t rate_alloc;        // allocation failure (malloc / calloc / realloc made by libqb code)
